@@ -74,6 +74,31 @@ def _synth_var_pair(rng):
     return f'({arg_val})/{c}', f'{a}\\({arg_var})'
 
 
+CONCRETE = ['[dcl]', '[conj]', '[b]', '[ng]', '[pss]', '[expl]', '[thr]', '[to]']
+
+
+def _synth_primer(rng):
+    """a pair whose unification binds a feature variable and THEN fails on a clash of concrete features"""
+    a = rng.choice(EN_ATOMS) + '[X]'
+    b1, b2 = rng.choice(EN_ATOMS), rng.choice(EN_ATOMS)
+    sl = rng.choice(['/', '\\'])
+    f1, g2 = rng.sample(CONCRETE, 2)
+    g1 = rng.choice(CONCRETE)
+    if rng.random() < 0.5:
+        return f'{a}/({b1}[X]{sl}{b2}{f1})', f'{b1}{g1}{sl}{b2}{g2}'
+    return f'{b1}{g1}{sl}{b2}{g2}', f'{a}\\({b1}[X]{sl}{b2}{f1})'
+
+
+def _synth_victim(rng):
+    """a pair that combines successfully and whose result keeps an unbound feature variable"""
+    a1, a2, c = rng.choice(EN_ATOMS), rng.choice(EN_ATOMS), rng.choice(EN_ATOMS)
+    sl = rng.choice(['/', '\\'])
+    cf = rng.choice(['', '', '[dcl]', '[b]'])
+    if rng.random() < 0.5:
+        return f'({a1}[X]{sl}{a2}[X])/{c}{cf}', f'{c}{cf}'
+    return f'{c}{cf}', f'({a1}[X]{sl}{a2}[X])\\{c}{cf}'
+
+
 def _toggle_nb(s, rng):
     """add [nb] to a featureless NP/N occurrence or remove an existing one"""
     if '[nb]' in s:
@@ -99,7 +124,8 @@ class C14(object):
             'application (depth 2), synthetic categories with several occurrences of one feature variable bound to '
             'different values, [nb] twins, shipped/random/empty seen sets and unary tables.  Oracles: no exception; '
             'arguments unchanged; identical result list at every evaluation in every replica and equal to the item evaluated '
-            'alone in a fresh process image (sampled); seen filter = all or '
+            'alone in a fresh process image (sampled), also when it is evaluated right after another item (ordered pairs over '
+            'a small set biased to items that bind, clash on or keep feature variables); seen filter = all or '
             'nothing; en results independent of [nb]; unary results = configured targets in order.  Distinct = digest '
             'of the item; non-trivial = non-empty result evaluated under >= 2 hash seeds whose two-string set order '
             'differs.')
@@ -158,8 +184,16 @@ class C14(object):
                         add_binary(partner, c, None, tag='closure')
                     closure_src.append((items[-1]['x'], items[-1]['y']))
             elif r < 0.8 and lang == 'en':
-                x, y = _synth_var_pair(rng)
-                add_binary(x, y, None, plain=rng.random() < 0.5, tag='feature_variable')
+                kind = rng.choice(['multi', 'multi', 'primer', 'victim'])
+                if kind == 'multi':
+                    x, y = _synth_var_pair(rng)
+                    add_binary(x, y, None, plain=rng.random() < 0.5, tag='feature_variable')
+                elif kind == 'primer':
+                    x, y = _synth_primer(rng)
+                    add_binary(x, y, None, tag='binds_then_clashes')
+                else:
+                    x, y = _synth_victim(rng)
+                    add_binary(x, y, None, tag='result_keeps_variable')
             elif r < 0.88 and lang == 'en':
                 base = rng.choice(items) if items else None
                 if base and base['kind'] == 'binary':
@@ -221,9 +255,20 @@ class C14(object):
             r2.shuffle(order)
             orders.append(order)
         r3 = gen.stream(seed, 'C14:alone', index)
-        alone = sorted(r3.sample(range(len(items)), max(1, len(items) // 4)))
+        alone = set(r3.sample(range(len(items)), max(1, len(items) // 8)))
+        # adjacency: "A then B in one fresh process" for ordered pairs over a small set biased towards items that
+        # bind / keep feature variables (state leaking from one rule application into the next one)
+        special = [i for i, it in enumerate(items) if it.get('tag') in
+                   ('binds_then_clashes', 'result_keeps_variable', 'feature_variable', 'mixed_features')]
+        pool_ = (r3.sample(special, min(8, len(special))) + r3.sample(range(len(items)), min(6, len(items))))
+        pool_ = list(dict.fromkeys(pool_))
+        adjacent = [[a, b] for a in pool_ for b in pool_ if a != b]
+        r3.shuffle(adjacent)
+        adjacent = adjacent[:40]
+        alone |= {b for _, b in adjacent}
+        alone = sorted(alone)
         return {'prop': 'C14', 'seed': seed, 'index': index, 'variant': variant, 'hashseeds': seeds,
-                'items': items, 'orders': orders, 'alone': alone}
+                'items': items, 'orders': orders, 'alone': alone, 'adjacent': adjacent}
 
     # ------------------------------------------------------------ execution
     def execute(self, spec, executor_mode=None):
@@ -260,6 +305,16 @@ class C14(object):
                 raise env.HarnessError('replica evaluation child died')
             alone_answers[i] = reply['answers'][0]
         bump(stats, 'alone_reference_evaluations', len(alone_answers))
+        adjacent_answers = []
+        for a, b in spec.get('adjacent', []):
+            srvs[0].stdin.write(json.dumps({'items': [items[a], items[b]], 'order': [0, 1]}) + '\n')
+        srvs[0].stdin.flush()
+        for a, b in spec.get('adjacent', []):
+            reply = json.loads(srvs[0].stdout.readline())
+            if 'died' in reply:
+                raise env.HarnessError('replica evaluation child died')
+            adjacent_answers.append(reply['answers'][1])
+        bump(stats, 'adjacent_pair_evaluations', len(adjacent_answers))
         diverse = len(set(set_orders)) >= 2
         bump(stats, 'replica_evaluations', sum(len(o) for o in spec['orders']))
         bump(stats, 'fault:F6_evaluations_under_other_hashseed',
@@ -319,6 +374,16 @@ class C14(object):
             bump(stats, 'tag:' + it.get('tag', '?'))
             if it.get('tag') == 'feature_variable' and ref['res']:
                 bump(stats, 'probe:feature_variable_pair_with_result')
+        if not violations:
+            for (a, b), got in zip(spec.get('adjacent', []), adjacent_answers):
+                want = alone_answers.get(b)
+                if want is not None and got.get('res') != want.get('res'):
+                    ia, ib = items[a], items[b]
+                    vio('same_as_alone',
+                        f'{ib["lang"]} ({ib["x"]}, {ib["y"]}) evaluated right after ({ia["x"]}, {ia["y"]}) in one fresh process '
+                        f'gives {_cats(got.get("res") or [])}, alone it gives {_cats(want.get("res") or [])}', b,
+                        kind='history')
+                    break
         if not violations:
             self.model_checks(spec, answers[0], stats, vio)
         if not stats['samples']:
@@ -417,6 +482,7 @@ class C14(object):
                     it['tag'] = 'pair'
         cand['orders'] = [[remap[i] for i in order if i in remap] for order in spec['orders']]
         cand['alone'] = sorted(remap[i] for i in spec.get('alone', []) if i in remap)
+        cand['adjacent'] = [[remap[a], remap[b]] for a, b in spec.get('adjacent', []) if a in remap and b in remap]
         return cand
 
     def evidence_extra(self, stats):
